@@ -37,6 +37,15 @@ Proof.
   intro HI. apply in_map_iff in HI as (y & Hy & HI). apply Hg in Hy. subst. contradiction.
 Qed.
 
+Lemma NoDup_app_intro {A} (l m : list A) :
+  NoDup l -> NoDup m -> (forall x, In x l -> ~ In x m) -> NoDup (l ++ m).
+Proof.
+  intros Hl Hm H. induction Hl as [|x l Hx Hl IH]; cbn; [exact Hm|].
+  constructor.
+  - intro HI. apply in_app_or in HI as [HI|HI]; [contradiction|]. apply (H x); [now left|exact HI].
+  - apply IH. intros y Hy. apply H. now right.
+Qed.
+
 Lemma NoDup_map_filter {A} (g : A -> pstr) (p : A -> bool) l : NoDup (map g l) -> NoDup (map g (filter p l)).
 Proof.
   induction l as [|x l IH]; cbn; intro H; [constructor|]. inversion H; subst.
@@ -198,10 +207,10 @@ Proof.
     apply andb_true_iff in HP as [P1 HP]. apply andb_true_iff in HP as [P2 HP]. apply andb_true_iff in HP as [P3 _].
     apply negb_true_iff in P1, P2, P3.
     cbn [app In] in HI. destruct HI as [E|[E|HI]].
-    + subst n. unfold tp_name in P1. rewrite starts_with_app in P1. discriminate.
-    + subst n. unfold parser_name in P2. rewrite starts_with_app in P2. discriminate.
+    + subst n. vm_compute in P1. discriminate.
+    + subst n. vm_compute in P2. discriminate.
     + destruct (ef_default f); cbn in HI; try contradiction;
-        destruct HI as [E|[]]; subst n; unfold edflt_name in P3; rewrite starts_with_app in P3; discriminate.
+        destruct HI as [E|[]]; subst n; vm_compute in P3; discriminate.
   - revert HI. apply RS. destruct (e_fields sh); vm_compute; reflexivity.
 Qed.
 
@@ -211,7 +220,7 @@ Theorem env_no_collision sh :
   forall f, In f (e_fields sh) -> ~ In (ef_name f) (env_own sh).
 Proof.
   intros HO HN. unfold env_names_ok in HO. rewrite forallb_forall in HO. split.
-  - apply NoDup_app.
+  - apply NoDup_app_intro.
     + vm_compute. repeat constructor; cbn; intuition discriminate.
     + exact HN.
     + intros x Hx HI. apply in_map_iff in HI as (f & <- & Hf).
@@ -267,7 +276,7 @@ Proof.
   { apply in_map_iff. exists r. auto. }
   destruct (lookup_last_some _ _ _ Hin) as (id' & E). rewrite E. f_equal.
   apply lookup_last_in in E. apply in_map_iff in E as (r' & E' & Hr').
-  inversion E'; subst. apply Hinj in H0. symmetry. now apply (HI r' r).
+  inversion E'; subst. apply Hinj in H0. now apply (HI r' r).
 Qed.
 
 Theorem helper_table_partial regs r :
